@@ -244,6 +244,16 @@ def check_C14(tr, history, meta, rng, thorough=False):
     return out
 
 
+def _same_record_modulo_time(row, rows):
+    """a usage row that duplicates one of `rows` for the same table/app/result"""
+    p = row.split(" ")
+    for r_ in rows:
+        q = r_.split(" ")
+        if q[1] == p[1] and q[2] == p[2] and q[-1] == p[-1]:
+            return True
+    return False
+
+
 def _c14_one(tr, history, meta, st, msg, cmax, with_restart):
     """the history with the command of step `st` duplicated on a fresh connection of the same side
     right after it (optionally: after a server restart that both runs get) versus without"""
@@ -360,6 +370,9 @@ def check_C10_resend(tr, history, meta, rng, thorough=False):
                         out.append(Finding("C10", "the server restarts on the files a crash left", j, {"event": e, "crash_after_commit": k}))
             got_ans = [x for x in _answer(bo["steps"][-1][1], c2) if not x.startswith("ack")]
             got_db = chan_only(bo["steps"][-1][2])
+            # the usage records (not the status row, not the client-version rows: the re-send binds again)
+            urec = lambda d: sorted(x for x in (d or []) if x.split(" ")[1] in ("u_nameplates", "u_mailboxes"))
+            want_u, got_u = urec(a["steps"][j][2]), urec(bo["steps"][-1][2])
             mbid = msg.get("mailbox")
             if msg.get("type") == "claim" and st.post is not None:
                 row = st.post.np_by_key().get((b[0], msg["nameplate"]))
@@ -381,6 +394,18 @@ def check_C10_resend(tr, history, meta, rng, thorough=False):
                     known = known or "K-crowded-rejoin"
                 out.append(Finding("C10", "a re-sent command after a crash reaches the same stored state", j,
                                    {"command": proto.op_line(op), "crash_after_commit": k, "uncrashed_only": x[:5], "resent_only": y[:5]}, known))
+            if got_ans == want_ans and got_db == want_db and got_u != want_u:
+                extra = list(got_u)
+                for r_ in want_u:
+                    if r_ in extra:
+                        extra.remove(r_)
+                missing = [r_ for r_ in want_u if got_u.count(r_) < want_u.count(r_)]
+                # K-usage-crash-dup: the crash fell between the usage commit and the channel commit, so the
+                # record of the retired object is written a second time by the re-sent command
+                known = "K-usage-crash-dup" if (not missing and extra and all(e_ in want_u or _same_record_modulo_time(e_, want_u) for e_ in extra)) else None
+                out.append(Finding("C10", "a re-sent command after a crash reaches the same stored state (usage records)", j,
+                                   {"command": proto.op_line(op), "crash_after_commit": k, "extra_usage_rows": extra[:4],
+                                    "missing_usage_rows": missing[:4]}, known))
             if [f for f in out if f.known is None]:
                 return out
     return out
